@@ -814,8 +814,16 @@ func runHistCase(o *Out, ci int, hc *histCase, nops int, distinct map[string]boo
 			if !tainted && !snapSame(snapOf(b, sol), before) {
 				violate("C18", "best-move-changed-solution", role+"|"+changedParts(before, snapOf(b, sol)), "BestMove query changed the observable solution: "+diffSnap(before, snapOf(b, sol)))
 			}
-			if su, ok := u.(nextroute.SolutionPlanStopsUnit); ok && len(su.SolutionStops()) <= 3 {
-				bestMoveOracle(o, hc, sol, su, mv, role)
+			if su, ok := u.(nextroute.SolutionPlanStopsUnit); ok {
+				// units of 4 stops (up to 24 orders) on short routes only: the enumeration grows with C(route+4, 4)
+				planned := 0
+				for _, v := range sol.Vehicles() {
+					planned += v.NumberOfStops()
+				}
+				if n := len(su.SolutionStops()); n <= 3 || (n == 4 && planned <= 5) {
+					bestMoveOracle(o, hc, sol, su, mv, role)
+					o.Count(fmt.Sprintf("c10-oracle:unit-stops=%d", n))
+				}
 			}
 			if su, ok := u.(nextroute.SolutionPlanStopsUnit); ok && len(su.SolutionStops()) >= 2 && len(su.SolutionStops()) <= 4 && !tainted {
 				genCorrespondence(o, rng, sol, su)
@@ -1480,6 +1488,7 @@ func estCorrespondence(o *Out, rec *recorder, mv nextroute.SolutionMoveStops, v 
 		return
 	}
 	vt := v.ModelVehicle().VehicleType()
+	stopGenCorrespondence(o, mv, v, gaps)
 	waitEstCorrespondence(o, rec, mv, v, hyp, firstIns, len(sps))
 	for _, ev := range rec.ests {
 		mx, ok := ev.Constraint.(nextroute.Maximum)
@@ -1741,4 +1750,28 @@ func seqCorrespondence(o *Out, sol nextroute.Solution) {
 			o.Count(fmt.Sprintf("seq-correspondence:stops=%d,orders=%d", len(stops), len(seqs)))
 		}
 	}
+}
+
+var sgenCounter int
+
+// stopGenCorrespondence: the public hypothetical-route iterator (NewSolutionStopGenerator) on this move against
+// NR.StopGen.generate, and the move's stop positions against NR.StopGen.positions of its gaps.
+func stopGenCorrespondence(o *Out, mv nextroute.SolutionMoveStops, v nextroute.SolutionVehicle, gaps []int) {
+	sgenCounter++
+	a, b := sgenCounter%2 == 1, (sgenCounter/2)%2 == 1
+	var route, ins, poss, out []string
+	for _, st := range v.SolutionStops() {
+		route = append(route, strconv.Itoa(st.Index()))
+	}
+	for i, sp := range mv.StopPositions() {
+		ins = append(ins, fmt.Sprintf("%d:%d", gaps[i], sp.Stop().Index()))
+		poss = append(poss, fmt.Sprintf("%d:%d:%d", sp.Previous().Index(), sp.Stop().Index(), sp.Next().Index()))
+	}
+	g := nextroute.NewSolutionStopGenerator(mv, a, b)
+	for st := g.Next(); !st.IsZero() && len(out) < 200; st = g.Next() {
+		out = append(out, strconv.Itoa(st.Index()))
+	}
+	o.Op(fmt.Sprintf("sgen %s %s %s %s %s", strings.Join(route, ","), strings.Join(ins, ","), strings.Join(poss, ","), b01(a), b01(b)),
+		"sgen "+strings.Join(out, ",")+" pos=1")
+	o.Count(fmt.Sprintf("sgen-correspondence:inserted=%d", len(ins)))
 }
